@@ -173,6 +173,111 @@ def gen_streams(ctx):
 
 
 # ------------------------------------------------------------------------------------------------
+# the target throughput as the track SPELLS it: Task.target_throughput / THROUGHPUT_PATTERN is the only producer of the value
+# that scheduler_for / UnitAwareScheduler divide by clients and weight
+# ------------------------------------------------------------------------------------------------
+SEPARATORS = [" ", " ", " ", " ", "\t", "\n", "\x0b", "\x0c", "\r", "\x1c", "\x1f"]
+BAD_TARGETS = ["{n}{u}/s", " {n} {u}/s", "{n}  {u}/s", "{i}. {u}/s", "{i}.{f}e1 {u}/s", "1e3 {u}/s", "+{n} {u}/s", "-{n} {u}/s", "{i},{f} {u}/s",
+               ". {u}/s", "{n} {u}", "{n} /s", "{n} my-{u}/s", "{n} {u}/S", "{n}_{u}/s", "x{n} {u}/s", "{n} {u} /s", "{i}..{f} {u}/s", "{n} {u}/x"]
+
+
+def gen_spelled(ctx):
+    """throttled deterministic tasks whose target throughput is a STRING in every legal spelling of the documented syntax
+    `<number> <unit>/s` — digits, digits.digits, .digits (no leading zero), leading / trailing zeros, every ASCII white-space
+    character as the separator, text after `/s` — and in malformed spellings next to them; 40 % of the tasks are read from a
+    generated track file by the real reader.  The case carries the parts (`spell`), from which the oracle takes the value."""
+    rng = ctx.rng
+    for _ in range(ctx.budget):
+        C = rng.choice([1, 1, 2, 3, 4])
+        unit = rng.choice(["docs", "pages", "ops", "MB"])
+        target_in_ops = rng.random() < 0.5
+        tunit = "ops" if target_in_ops else unit
+        w0 = rng.choice([1, 1, 2, 5, 20])
+        form = rng.choice(["nolead", "nolead", "nolead", "frac", "frac", "int", "bad"])
+        ip = rng.choice(["0", "0", "00", "1", "2", "5", "05", "10", "12", "250"])
+        fp = rng.choice(["5", "5", "25", "125", "50", "500", "75", "0", "00", "05", "1", "3"])
+        if form == "nolead":
+            ip = ""
+        if form == "int":
+            fp = None
+        num_text = ip if fp is None else f"{ip}.{fp}"
+        sep = rng.choice(SEPARATORS)
+        tail = rng.choice(["", "", "", "ec", " ", " # per client", "/s", "\n"])
+        V = Fraction(int(ip or "0")) + (Fraction(int(fp), 10 ** len(fp)) if fp is not None else 0)
+        if form == "bad":
+            text = rng.choice(BAD_TARGETS).format(n=num_text, i=ip, f=fp or "5", u=tunit)
+            spell = {"valid": False}
+        else:
+            text = f"{num_text}{sep}{tunit}/s{tail}"
+            spell = {"valid": True, "int_part": ip, "frac_part": fp, "sep": sep, "unit": tunit, "tail": tail, "value": ec.qs(V)}
+        weff = 1 if (target_in_ops and unit != "ops") else w0
+        interval = Fraction(C * weff) / V if V else Fraction(1, 2)
+        interval = min(interval, Fraction(64))
+        n = rng.randrange(3, 8)
+        reqs = []
+        for i in range(n + rng.choice([0, 1])):
+            r = rng.random()
+            w = rng.choice([w0, w0, w0 * 2])
+            if r < 0.12:
+                out = rng.choice([{"k": "dict", "w": w, "unit": unit, "success": False, "tput": None, "etype": None}, {"k": "api", "status": 500}, {"k": "timeout"}])
+            elif r < 0.55:
+                out = {"k": "tuple", "w": w, "unit": unit}
+            else:
+                out = {"k": "dict", "w": w, "unit": unit, "success": rng.choice([None, True]), "tput": None, "etype": None}
+            sv = rng.choice([interval / 8, interval / 4, interval / 2, interval * 3, Fraction(9, 2), Fraction(0)])
+            reqs.append({"gen": "0/1", "pre": ec.qs(ec.gen_overhead(rng, True)), "service": ec.qs(Fraction(round(sv * 1024), 1024)),
+                         "post": "0/1", "draw": "0/1", "out": out, "rc": None, "rp": None, "sp": None})
+        warmup_it = rng.choice([None, 0, 1])
+        idx = rng.randrange(0, C)
+        case = {"task": {"warmup_it": warmup_it, "iters": n, "warmup_t": None, "period": None, "ramp_up": None, "clients": C,
+                         "tput": {"tt": {"kind": "str", "s": text}}, "sched": rng.choice([None, None, "deterministic"]),
+                         "completes_parent": False, "any_completes_parent": False},
+                "client": {"id": rng.randrange(0, 8), "idx": idx, "gidx": idx, "total": C}, "t0": ec.qs(ec.dy(rng, 0, 64)), "epoch": "1600000000/1",
+                "on_error": "continue", "runner_completion": False, "src_infinite": True, "src_progress": False,
+                "cancel_at": None, "complete_at": None, "queue_cap": 16384, "reqs": reqs, "spell": spell}
+        if rng.random() < 0.4:
+            # the task as a race gets it: read from the track file by the real reader, allocated by the real Allocator
+            spec = {"iterations": {"int": n}}
+            if warmup_it is not None:
+                spec["warmup-iterations"] = {"int": warmup_it}
+            case["track"] = {"parallel": None, "tasks": [spec], "clients": [C], "focus": 0, "parallel_clients": None}
+            case["alloc"] = {"schedule": [{"leaf": True, "clients": None, "tasks": [{"id": 0, "clients": C, "cp": False, "acp": False}]}], "focus": 0, "k": idx}
+        yield case
+
+
+def oracle_spelled(ctx, case, impl):
+    """the value a well-formed target string denotes is read off the generated PARTS (never by a pattern over the text): the task
+    must run, throttled at exactly that value — all clauses of C04 are evaluated against the due times that follow from it"""
+    sp = case["spell"]
+    ctx.count("spelled:" + ("malformed" if not sp["valid"] else "no-leading-digit" if sp["int_part"] == "" else "integer" if sp["frac_part"] is None else "fraction"))
+    if not sp["valid"]:
+        return  # what the code makes of a malformed text is compared with the model only
+    ctx.count("spelled:sep-blank" if sp["sep"] == " " else "spelled:sep-other")
+    V = Fraction(sp["value"])
+    text = case["task"]["tput"]["tt"]["s"]
+    if impl["result"] in ec.NO_RUN:
+        ctx.fail("spelled-target-rejected", f"target throughput {text!r} has the documented syntax but the task does not run", "a run", impl["result"])
+        return
+    if V == 0:
+        late = [t["sched"] for t in impl["tuples"] if Fraction(t["sched"]) != 0]
+        if late:
+            ctx.fail("spelled-zero-throttled", f"target throughput {text!r} denotes 0 = no target, but requests are scheduled later than 0", "0", late[0])
+        shadow = dict(case, task=dict(case["task"], tput=None))
+    else:
+        # the oracle's own notation for the value: "<p>/<q> <unit>/s" (read by exec_common._tput_reading_raw with Fraction)
+        shadow = dict(case, task=dict(case["task"], tput={"tt": {"kind": "str", "s": f"{V.numerator}/{V.denominator} {sp['unit']}/s"}}))
+        n = len(impl["tuples"])
+        if n <= len(case["reqs"]) and not impl["result"].startswith("raised:"):
+            if ec.expected_due_times(shadow, n) is not None:
+                ctx.count("oracle:spelled-due-times-derived")
+    ec.oracle_c04(ctx, shadow, impl)
+
+
+def run_spelled(ctx, case):
+    ec.run_exec(ctx, case, [oracle_spelled])
+
+
+# ------------------------------------------------------------------------------------------------
 # Sampler.add pre-empted by the worker thread's drain (Sampler.samples) at every possible point
 # ------------------------------------------------------------------------------------------------
 def gen_sampler(ctx):
@@ -390,6 +495,7 @@ STREAMS = [
     Stream("exec_float", gen_float, run, quick=5000, thorough=200000, shards=16),
     Stream("exec_slow_service", gen_slow, run, quick=2500, thorough=100000, shards=8),
     Stream("exec_scheduler_feedback", gen_feedback, run, quick=4000, thorough=150000, shards=16),
+    Stream("exec_spelled_targets", gen_spelled, run_spelled, quick=1600, thorough=80000, shards=16),
     Stream("exec_nested_contexts", gen_nested, run, quick=4000, thorough=200000, shards=16),
     Stream("exec_real_composite", gen_composite, run, quick=3000, thorough=150000, shards=16),
     Stream("exec_concurrent_streams", gen_streams, run, quick=3000, thorough=120000, shards=16),
